@@ -270,7 +270,8 @@ def run_case(c):
         overrides = [{}]
         if scale == 'logicle':
             overrides = [{}, {'T': 5e4}, {'M': 5.0}, {'W': 0.8}, {'T': 1e5, 'M': 5.5, 'W': 0.3}, {'W': 0.0}, {'M': 3.0}, {'M': 4.0, 'W': 0.25},
-                         {'T': 3e5, 'M': 2.0, 'W': 0.0}, {'M': 4.5}, {'M': 9.0, 'W': 2.0}]
+                         {'T': 3e5, 'M': 2.0, 'W': 0.0}, {'M': 4.5}, {'M': 9.0, 'W': 2.0},
+                         {'T': 1e6}, {'T': 5e7, 'W': 0.5}, {'T': 262144.0}]          # (an explicit T above 2**18 alone: M follows it)
         for j in range(3):
             r = rs[j]
             for nb in NBINS:
